@@ -40,6 +40,57 @@ FAMS = [
                   [oracles.WaiterObserver], [_posts]),
 ]
 
+def _late():
+    # the sweep engine of C05 with C07's oracles: one caller is cancelled at every
+    # suspension point (scope and deadline style) while another request waits in the
+    # queue behind it at max_connections=1 - with no pool time-out, so that a waiter the
+    # pool forgets shows as a caller blocked for ever
+    from .c05 import SweepFamily, base_index, base_scenario
+
+    class WaiterSweep(SweepFamily):
+        def make_base(self, bseed, bi):
+            cts = ["h1", "h1tls", "h2tls", "h2pk", "fwd", "tun_h1", "tun_h2", "socks_h1",
+                   "socks_auth_h2", "uds_h1"]
+            ct = cts[(bi // 2) % len(cts)]
+            comp = ["behind", "queued"][bi % 2]
+            b = base_scenario(bseed, base_index(ct, comp), self.ex)
+            b["pool"]["max_connections"] = 1
+            b["pool"].pop("keepalive_expiry", None)
+            for c in b["callers"]:
+                for op in c["ops"]:
+                    op.pop("timeouts", None)
+            # a follower that arrives when everything above is over (or stuck): whatever
+            # the cancellation left behind, its request to the other origin must be served
+            from .. import gen
+
+            r = gen.mk_rng(bseed, "c07follower")
+            scheme = b["callers"][0]["ops"][0]["url"].split("://", 1)[0]
+            b["callers"].append({"start": r.choice([0.2, 1.0, 3.0]), "ops": [{
+                "op": "request", "token": "f0", "method": "GET", "url": f"{scheme}://b.test/t/f0",
+                "resp": gen.gen_resp_plan(r, b"f0", "GET", {"body_len": 20, "p_interim": 0.0,
+                                                           "p_conn_close": 0.0, "p_http10": 0.0,
+                                                           "framings": ["cl"]}),
+                "consume": "all"}]})
+            b["epilogue"] = ["settle", "close_pool"]
+            b.pop("probe_reuse", None)
+            return b
+
+        def observers(self, scn):
+            return [oracles.WaiterObserver()]
+
+        def run_scenario(self, scn):
+            from ..scenario import run_scenario
+
+            res = run_scenario(scn, self.observers(scn))
+            _posts(res)
+            res.violations = list(res.world.violations)
+            return res
+
+    FAMS.append(WaiterSweep("C07", "cancel-sweep-async", 20, 200, kinds=("scope",), faults=False))
+
+
+_late()
+
 register("C07", {
     "level": "exploration",
     "rule": "seeded swarm over 2-6 concurrent callers, max_connections 1..3, 1-3 origins, "
@@ -48,7 +99,8 @@ register("C07", {
             "limit of 1-2; liveness judged only at quiescence (deadlock detector, "
             "serviceable-waiter invariant, no request parked on a connection that had already "
             "been told GOAWAY when it was handed over, termination); non-trivial = >=2 callers "
-            "or a fault fired",
+            "or a fault fired; plus a sweep: one caller cancelled at every suspension point "
+            "while another request waits behind it at max_connections=1 without time-outs",
     "assumptions": ["every caller script closes what it opens and every server answers, so "
                     "no legitimate infinite wait exists", "reads pool._requests (guarded) to "
                     "identify queued requests",
